@@ -139,7 +139,13 @@ func RunFree(sc *Scenario) (events []Event, fatal string) {
 	if leaks == nil {
 		leaks = []string{}
 	}
-	r.rec(Event{"ev": "quiesce", "leaks": leaks, "nleaks": len(leaks), "notified": nvals})
+	allfmt := true
+	for _, g := range leaks {
+		if i := strings.Index(g, "]: "); i < 0 || !strings.HasPrefix(g[i+3:], "/decor.WC.Format") {
+			allfmt = false
+		}
+	}
+	r.rec(Event{"ev": "quiesce", "leaks": leaks, "nleaks": len(leaks), "notified": nvals, "allfmt": allfmt})
 	if r.cancel != nil {
 		r.cancel()
 	}
@@ -158,11 +164,20 @@ func (r *run) freeHook(point string, args ...interface{}) {
 		if args[0].(int) == 0 {
 			r.rec(Event{"ev": "cycle"})
 		}
+	case "ls:tick":
+		r.rec(Event{"ev": "tickfwd"})
+	case "ls:done":
+		r.mu.Lock()
+		r.lsDone = true
+		r.mu.Unlock()
 	case "dp:send":
 		r.rec(Event{"ev": "detached", "b": r.barOf(args[0], false)})
 	case "ct:push":
 		r.barOf(args[0], true)
 	case "pw:cancel":
+		r.mu.Lock()
+		r.closing = true
+		r.mu.Unlock()
 		r.rec(Event{"ev": "closing"})
 	}
 	r.mu.Lock()
